@@ -61,6 +61,40 @@ func c01FrameView(p *profile.Profile) Term {
 	return L(ss...)
 }
 
+// c01DriverProtoFile is c01DriverProto through pprof's own output writer (-output=FILE, no Writer
+// plug-in): the file may already exist, longer than what is written now, or hold an earlier report.
+func c01DriverProtoFile(p *profile.Profile, path string, stale []byte) (out Term) {
+	defer func() {
+		if r := recover(); r != nil {
+			out = L(S("panic"), S(fmt.Sprint(r)))
+		}
+	}()
+	if stale != nil {
+		if err := os.WriteFile(path, stale, 0o644); err != nil {
+			return L(S("harness-err"), S(err.Error()))
+		}
+	} else {
+		os.Remove(path)
+	}
+	defer os.Remove(path)
+	o := &plugin.Options{
+		Flagset: newC09Flags([]string{"-proto", "-symbolize=none", "-output=" + path, "src"}),
+		Fetch:   c01Fetch{p.Copy()}, Sym: c09Sym{}, Obj: &c09Obj{}, UI: &c09UI{},
+	}
+	if err := driver.PProf(o); err != nil {
+		return L(S("err"), S(err.Error()))
+	}
+	b, err := os.ReadFile(path)
+	if err != nil {
+		return L(S("no-output"))
+	}
+	q, err := profile.ParseData(b)
+	if err != nil {
+		return L(S("reparse-err"), S(err.Error()))
+	}
+	return L(S("ok"), c01FrameView(q))
+}
+
 func c01DriverProto(p *profile.Profile) (out Term) {
 	defer func() {
 		if r := recover(); r != nil {
@@ -543,7 +577,30 @@ func runC01(c *Ctx) {
 		for j, st := range p.SampleType { // the driver wants distinct sample type names
 			st.Type = fmt.Sprintf("%s%d", st.Type, j)
 		}
+		if r.P(1, 3) && len(p.Mapping) > 0 { // file names that look like URLs, with and without a build id
+			m := p.Mapping[r.Intn(len(p.Mapping))]
+			m.File = PickS(r, []string{"file:1", "http://h/x", "c:/srv/app/server.exe", "app://x/lib.so", "file:///usr/bin/x", "x:y", "/tmp/build-100%/bin/server", ":foo", "http://[::1"})
+			m.BuildID = PickS(r, []string{"", "", "abc123", "0123456789abcdef"})
+		}
 		c.Case("driver-proto", L(S("driverproto"), DumpProfile(p), c01AbsURLFiles(p)), c01DriverProto(p), true, "op:driverproto")
+		if i%4 == 0 { // the same through pprof's file writer, over a file that already exists
+			var stale []byte
+			switch r.Intn(3) {
+			case 0: // a longer earlier report
+				big := GenProfile(r, c01Knobs(r))
+				for len(big.Sample) > 0 && len(big.Sample) < 300 {
+					big.Sample = append(big.Sample, big.Sample[:len(big.Sample):len(big.Sample)]...)
+				}
+				var buf bytes.Buffer
+				if big.CheckValid() == nil && big.Write(&buf) == nil {
+					stale = buf.Bytes()
+				}
+			case 1: // junk, longer than any report here
+				stale = bytes.Repeat([]byte{0xAB, 0x1f, 0x8b, 0}, 20000)
+			}
+			c.Case("driver-proto-file", L(S("driverproto"), DumpProfile(p), c01AbsURLFiles(p)),
+				c01DriverProtoFile(p, fmt.Sprintf("c01out_%d.pb.gz", i), stale), true, "op:driverproto", fmt.Sprintf("stale:%d", len(stale)))
+		}
 	}
 	{ // witness of F34, always generated: a build-id-less mapping whose file name looks like a URL
 		p := &profile.Profile{SampleType: []*profile.ValueType{{Type: "samples", Unit: "count"}}}
